@@ -15,6 +15,11 @@ scan() -> {"random": [...], "writes": [...], "parallel": [...], "seedless": [...
             package class with a `fit` method or imported from sklearn) that a function uses other than as the direct
             argument of clone(...) / deepcopy(...): every object of the class would then share (and refit) one instance.
             item: {"file", "func", "name"}
+  buffers   a buffer ALLOCATED in a function (np.empty / zeros / ones / full / *_like / ndarray / [] / {} / list() / dict())
+            and then passed as an argument to every job of a `Parallel(...)(delayed(f)(..., buf, ...) for ...)` in the same
+            function: the jobs share (and under threads overwrite) it.  item: {"file", "func", "name"}
+  apply_parallel   apply-type methods (predict / predict_proba / transform / ... and their `_` templates) that run a
+            `Parallel(...)`: the sites the harness's large-batch n_jobs cases are about.  item: {"file", "func"}
   seedless  estimator classes that take a `random_state` constructor parameter but never read
             `self.random_state` outside `__init__` (nor pass `random_state=` on) in the class or its bases
             within the package.  item: {"file", "cls"}
@@ -226,7 +231,7 @@ def _is_target_root(target, attr_node):
 
 def scan(root=None):
     root = root or repo_root()
-    out = {"random": [], "writes": [], "parallel": [], "seedless": [], "truthy": [], "shared": [], "classes": 0, "files": 0}
+    out = {"random": [], "writes": [], "parallel": [], "seedless": [], "truthy": [], "shared": [], "buffers": [], "apply_parallel": [], "classes": 0, "files": 0}
     trees = []
     classes = {}       # name -> list of (rel, ClassDef)  (names are unique enough inside sktime; all candidates are used)
     for path, rel in _files(root):
@@ -290,6 +295,36 @@ def scan(root=None):
                 for k, v in mro_methods(b, seen).items():
                     res.setdefault(k, v)
         return res
+
+    # ---- buffers shared by parallel jobs; apply-type methods that run Parallel
+    ALLOC = {"empty", "zeros", "ones", "full", "empty_like", "zeros_like", "ones_like", "full_like", "ndarray", "list", "dict", "set", "bytearray"}
+    for rel, tree in trees:
+        for cls in [n for n in ast.walk(tree) if isinstance(n, ast.ClassDef)] + [tree]:
+            for fn in (cls.body if hasattr(cls, "body") else []):
+                if not isinstance(fn, (ast.FunctionDef, ast.AsyncFunctionDef)):
+                    continue
+                where = (cls.name + "." if isinstance(cls, ast.ClassDef) else "") + fn.name
+                allocated = set()
+                for node in ast.walk(fn):
+                    if isinstance(node, ast.Assign) and len(node.targets) == 1 and isinstance(node.targets[0], ast.Name):
+                        v = node.value
+                        d = _dotted(v.func) if isinstance(v, ast.Call) else None
+                        if (d and d.split(".")[-1] in ALLOC) or isinstance(v, (ast.List, ast.Dict, ast.Set)):
+                            allocated.add(node.targets[0].id)
+                has_par = False
+                for node in ast.walk(fn):
+                    # Parallel(...)( <generator / list of delayed(f)(args)> )
+                    if isinstance(node, ast.Call) and isinstance(node.func, ast.Call) and (_dotted(node.func.func) or "").split(".")[-1] == "Parallel":
+                        has_par = True
+                        for sub in ast.walk(node):
+                            if isinstance(sub, ast.Call) and isinstance(sub.func, ast.Call) and (_dotted(sub.func.func) or "").split(".")[-1] == "delayed":
+                                for a in list(sub.args) + [k.value for k in sub.keywords]:
+                                    if isinstance(a, ast.Name) and a.id in allocated:
+                                        out["buffers"].append({"file": rel, "func": where, "name": a.id})
+                    elif isinstance(node, ast.Call) and (_dotted(node.func) or "").split(".")[-1] == "Parallel":
+                        has_par = True
+                if has_par and fn.name in APPLY:
+                    out["apply_parallel"].append({"file": rel, "func": where})
 
     # ---- module-level estimator instances used without clone
     def has_fit(name):
@@ -369,7 +404,7 @@ if __name__ == "__main__":
     import json
     r = scan(sys.argv[1] if len(sys.argv) > 1 else None)
     print(json.dumps({k: (v if not isinstance(v, list) else len(v)) for k, v in r.items()}))
-    for k in ("random", "seedless", "parallel", "truthy", "shared"):
+    for k in ("random", "seedless", "parallel", "truthy", "shared", "buffers", "apply_parallel"):
         for it in r[k]:
             print(k, it)
     seen = set()
